@@ -19,7 +19,7 @@ Binding A.  The dumped graphs are the test plan:
               XmlToJson on the spec's element tree (xml.etree and lxml)
   XmlRoundTrip every (tree, context node): deep-equal(node, parse-xml(serialize(node))) and the
               structure of the parsed tree, xml.etree and lxml, document and element roots, plain /
-              namespaced / markup-character content
+              namespaced / markup-character / non-NFC content
 Projection is dumb: python json.loads for JSON texts (it is also the second oracle of the spec:
 json.loads(rendered spec text) must equal the spec's abstract value, else MachineryError), an XPath-level
 walk for maps/arrays, an ElementTree walk for parsed XML.  Numbers are compared as doubles (fn:parse-json
@@ -752,8 +752,12 @@ def _any_escaped(xe) -> bool:
 
 # ---------------------------------------------------------------------------------------------
 # XmlRoundTrip
-TEXTS = {'plain': 't%d', 'markup': '<&>"\'%d'}
-ATTVALS = {'plain': 'v%d', 'markup': '<&>"\'\n\t%d'}
+# 'nonnfc': content that is NOT in Unicode normalization form C (base letter + combining mark, the singleton
+# decomposables ANGSTROM SIGN and OHM SIGN, unordered combining marks): opaque code points for the spec, the
+# round trip must give them back unchanged (the serialization parameter normalization-form defaults to none)
+NONNFC = 'e\u0301\u212b\u2126a\u0301\u0323'
+TEXTS = {'plain': 't%d', 'markup': '<&>"\'%d', 'nonnfc': NONNFC + '%d'}
+ATTVALS = {'plain': 'v%d', 'markup': '<&>"\'\n\t%d', 'nonnfc': NONNFC + '%d'}
 NS_B = 'urn:c17:b'
 
 
@@ -762,7 +766,7 @@ def expected_tree(parent2, kind2, first: int, variant: str):
     n = len(kind2)
     kids: dict = {i: [] for i in range(1, n + 1)}
     atts: dict = {i: [] for i in range(1, n + 1)}
-    cont = 'markup' if variant == 'markup' else 'plain'
+    cont = variant if variant in ('markup', 'nonnfc') else 'plain'
 
     def name(k):
         nm = {'ea': 'a', 'eb': 'b', 'xa': 'a', 'xc': 'c'}[k]
@@ -826,18 +830,18 @@ def make_doc(parent, kind, lib: str, variant: str) -> Doc:
             elif k == 'xc':
                 el = d.objs[parent[i - 1]]
                 el.set('{%s}c' % NS_B, el.attrib.pop('c'))
-        elif variant == 'markup':
+        elif variant in ('markup', 'nonnfc'):
             if k in ('xa', 'xc'):
-                d.objs[parent[i - 1]].set({'xa': 'a', 'xc': 'c'}[k], ATTVALS['markup'] % i)
-    if variant == 'markup':
+                d.objs[parent[i - 1]].set({'xa': 'a', 'xc': 'c'}[k], ATTVALS[variant] % i)
+    if variant in ('markup', 'nonnfc'):
         for el in d.root.iter():
             if callable(el.tag):
                 continue
             if el.text and el.text[:1] == 't':
-                el.text = TEXTS['markup'] % int(el.text[1:])
+                el.text = TEXTS[variant] % int(el.text[1:])
             for k in el:
                 if k.tail and k.tail[:1] == 't':
-                    k.tail = TEXTS['markup'] % int(k.tail[1:])
+                    k.tail = TEXTS[variant] % int(k.tail[1:])
     return d
 
 
@@ -1025,7 +1029,7 @@ def run(chk: core.Check) -> None:
                 raise tla.MachineryError('XmlRoundTrip: no done states for document / root / inner context nodes')
             for s in done:
                 for lib in ('etree', 'lxml'):
-                    for variant in ('plain', 'ns', 'markup'):
+                    for variant in ('plain', 'ns', 'markup', 'nonnfc'):
                         for rootk in (('doc',) if s['ctx'] == 0 else ('doc', 'elem')):
                             xml_cases.append(dict(parent=list(s['parent']), kind=list(s['kind']), ctx=s['ctx'],
                                                   parent2=list(s['parent2']), kind2=list(s['kind2']),
@@ -1059,4 +1063,4 @@ def run(chk: core.Check) -> None:
     chk.coverage['rule'] = ('JsonString: every (source string, rendering) of the escaped states is one trace; JsonModel: every edge '
                             'of the TLC graph is one case (source state rendered from the spec); XmlRoundTrip: every '
                             '(tree, context node) behaviour is one case x {xml.etree, lxml} x {document, element root} x '
-                            '{plain, namespaced, markup characters}')
+                            '{plain, namespaced, markup characters, non-NFC characters}')
